@@ -65,6 +65,9 @@ class Drawer(AbstractMLE):
 
         number_of_cores = 1
 
+        # a search reloaded from its search.json is given the persisted number_of_cores as a keyword
+        kwargs.pop("number_of_cores", None)
+
         super().__init__(
             name=name,
             path_prefix=path_prefix,
